@@ -184,11 +184,11 @@ func collectorRules(c *core.Ctx, s *Stage, col, w *Goroutine, vals, result *ir.T
 		c.Ok("combine-once", "fork.Fold#collector", col.Fn.Pos(), "one Combine per iteration")
 	}
 	// counts
-	var add *ir.Step
-	for _, p := range s.Outer.AllPaths() {
+	addWhy := "the collector does not wait for the workers"
+	for _, p := range an.AllPaths() {
 		for i := range p.Steps {
-			if isWgAdd(&p.Steps[i]) {
-				add = &p.Steps[i]
+			if isWgWait(&p.Steps[i]) {
+				_, addWhy = addAccounts(s.Outer, p.Steps[i].A[0], w, w.Trip)
 			}
 		}
 	}
@@ -202,8 +202,8 @@ func collectorRules(c *core.Ctx, s *Stage, col, w *Goroutine, vals, result *ir.T
 		why = "the collector's loop runs " + t + " times, expected exactly the worker-count parameter"
 	case !isPar(w.Trip):
 		why = "the spawn loop runs " + short(w.Trip) + " times, expected exactly the worker-count parameter"
-	case add == nil || !isPar(add.A[1]):
-		why = "wg.Add's argument is not the worker-count parameter"
+	case addWhy != "":
+		why = addWhy
 	case !isPar(chanCap(vals)):
 		why = "the partials channel's capacity is " + short(chanCap(vals)) + ", expected the worker-count parameter (each worker sends its partial with a plain send)"
 	}
